@@ -1,21 +1,811 @@
-//! Property monitors beyond the commit-sequence ones in obs.rs (filled in per property).
-use crate::net::{Phase, TapEvent, TapKind};
+//! Property monitors over the frame tap, the commit channels and the store-write tap.
+//!
+//! Ordering discipline. A node's actors hand messages to per-destination connection tasks, so the
+//! order in which frames of DIFFERENT connections reach the wire is not the order in which the
+//! node decided them. Orders are therefore only compared (a) within one connection, or between
+//! successive connections of the same sender object to the same destination (FIFO by
+//! construction), and (b) between "delivered to the node" and "written by the node", where
+//! using delivered-by-then can only make an oracle more permissive.
+use crate::ident::{self, Round};
+use crate::net::{Phase, TapEvent, TapKind, SVC_CONSENSUS, SVC_MEMPOOL, SVC_TX};
 use crate::obs::{Decoded, Observer};
-use consensus::Block;
-use crypto::Digest;
+use consensus::{Block, ConsensusMessage, QC, TC};
+use crypto::{Digest, PublicKey};
+use mempool::MempoolMessage;
+use std::collections::{BTreeMap, HashMap, HashSet};
+
+#[derive(Default)]
+pub struct LinkCore {
+    pub max_vote_round: Round,
+    pub max_timeout_round: Round,
+    pub max_acting_round: Round,
+    pub max_voted_qc_round: Round,
+    pub max_timeout_high_qc: Round,
+    pub any_vote: bool,
+    pub any_timeout: bool,
+}
+
+#[derive(Default)]
+pub struct Tally {
+    pub authors: HashSet<usize>,
+    pub stake: u64,
+}
+
+pub struct TxRec {
+    pub seq: u64,
+    pub t_us: u64,
+    pub conn: usize,
+    pub bytes: Vec<u8>,
+}
+
+pub struct BatchRec {
+    pub first_seq: u64,
+    pub first_t: u64,
+    pub digest: Digest,
+    pub txs: Vec<Vec<u8>>,
+    pub bytes_len: usize,
+}
 
 pub struct Ext {
     pub n: usize,
+    qc_memo: HashMap<Digest, bool>,
+    tc_memo: HashMap<Digest, bool>,
+    link_core: HashMap<(usize, usize), LinkCore>,
+    // C03: round -> voted block, per node (wire votes and own signatures inside QCs).
+    voted: Vec<HashMap<Round, Digest>>,
+    // C09
+    proposed: Vec<HashMap<Round, Digest>>,
+    voted_author: BTreeMap<Round, PublicKey>,
+    proposal_first_emission: Vec<HashMap<(usize, Digest), u64>>,
+    link_prop_max_round: HashMap<(usize, usize), Round>,
+    // C05
+    pub children: HashMap<Digest, Vec<Digest>>,
+    qc_shown: Vec<HashSet<Digest>>,
+    authored: Vec<HashSet<Digest>>,
+    unjustified: Vec<Vec<(Digest, Round)>>,
+    // C10
+    evidence: Vec<Round>,
+    vote_tally: Vec<HashMap<(Round, Digest), Tally>>,
+    timeout_tally: Vec<HashMap<Round, Tally>>,
+    // C19
+    tc_sent: HashSet<(usize, usize, Round)>,
+    // C12 / C11 / C13
+    pub batch_first_src: HashMap<Digest, (usize, u64)>,
+    conn_reqs: HashMap<usize, Vec<Option<Digest>>>,
+    pub acks: HashMap<(usize, Digest), HashMap<usize, u64>>,
+    pub tx_delivered: Vec<Vec<TxRec>>,
+    pub own_batches: Vec<Vec<BatchRec>>,
+    pub batch_txs: HashMap<Digest, Vec<Vec<u8>>>,
+    pub batch_requests: Vec<Vec<(u64, Digest)>>,
+    pub sync_requests: Vec<Vec<(u64, u64, Digest, usize)>>,
+    pub params: Vec<crate::scenario::NodeParams>,
+    pub bounds: crate::scenario::Bounds,
+    pub profile: String,
+    pub crashed: Vec<Option<u64>>,
+    pub seal_slack_us: u64,
+    pub batch_delivered_to: HashSet<(usize, Digest)>,
+    pending_votes: HashMap<Digest, Vec<(usize, usize, Round, u64)>>,
 }
 
 impl Ext {
     pub fn new(n: usize) -> Self {
-        Ext { n }
+        Ext {
+            n,
+            qc_memo: HashMap::new(),
+            tc_memo: HashMap::new(),
+            link_core: HashMap::new(),
+            voted: (0..n).map(|_| HashMap::new()).collect(),
+            proposed: (0..n).map(|_| HashMap::new()).collect(),
+            voted_author: BTreeMap::new(),
+            proposal_first_emission: (0..n).map(|_| HashMap::new()).collect(),
+            link_prop_max_round: HashMap::new(),
+            children: HashMap::new(),
+            qc_shown: (0..n).map(|_| HashSet::new()).collect(),
+            authored: (0..n).map(|_| HashSet::new()).collect(),
+            unjustified: (0..n).map(|_| Vec::new()).collect(),
+            evidence: vec![0; n],
+            vote_tally: (0..n).map(|_| HashMap::new()).collect(),
+            timeout_tally: (0..n).map(|_| HashMap::new()).collect(),
+            tc_sent: HashSet::new(),
+            batch_first_src: HashMap::new(),
+            conn_reqs: HashMap::new(),
+            acks: HashMap::new(),
+            tx_delivered: (0..n).map(|_| Vec::new()).collect(),
+            own_batches: (0..n).map(|_| Vec::new()).collect(),
+            batch_txs: HashMap::new(),
+            batch_requests: (0..n).map(|_| Vec::new()).collect(),
+            sync_requests: (0..n).map(|_| Vec::new()).collect(),
+            params: Vec::new(),
+            bounds: Default::default(),
+            profile: String::new(),
+            crashed: vec![None; n],
+            seal_slack_us: 20_000,
+            batch_delivered_to: HashSet::new(),
+            pending_votes: HashMap::new(),
+        }
     }
 }
 
-pub fn on_frame(_o: &mut Observer, _ev: &TapEvent, _phase: Phase, _fidx: u32, _data: &[u8], _dec: &Decoded) {}
-pub fn on_conn_event(_o: &mut Observer, _ev: &TapEvent, _kind: &TapKind) {}
-pub fn on_commit(_o: &mut Observer, _node: usize, _b: &Block, _d: &Digest, _seq: u64) {}
-pub fn on_store_write(_o: &mut Observer, _node: usize, _key: &[u8], _value: &[u8], _vh: &Digest, _seq: u64) {}
-pub fn on_end(_o: &mut Observer, _end_us: u64) {}
+fn qc_valid(o: &mut Observer, qc: &QC) -> bool {
+    if ident::is_genesis_qc(qc) {
+        return true;
+    }
+    let id = ident::content_id(qc);
+    if let Some(v) = o.ext.qc_memo.get(&id) {
+        return *v;
+    }
+    let v = ident::check_qc(qc, &o.members).is_ok();
+    o.ext.qc_memo.insert(id, v);
+    v
+}
+
+fn tc_valid(o: &mut Observer, tc: &TC) -> bool {
+    let id = ident::content_id(tc);
+    if let Some(v) = o.ext.tc_memo.get(&id) {
+        return *v;
+    }
+    let v = ident::check_tc(tc, &o.members).is_ok();
+    o.ext.tc_memo.insert(id, v);
+    v
+}
+
+fn tc_max_high(tc: &TC) -> Round {
+    tc.votes.iter().map(|(_, _, r)| *r).max().unwrap_or(0)
+}
+
+/// A valid QC was shown to node `i` (in any message) or emitted by it.
+fn note_qc_shown(o: &mut Observer, i: usize, qc: &QC) {
+    if ident::is_genesis_qc(qc) {
+        return;
+    }
+    if qc_valid(o, qc) {
+        o.ext.qc_shown[i].insert(qc.hash.clone());
+        if o.ext.evidence[i] < qc.round {
+            o.ext.evidence[i] = qc.round;
+        }
+    }
+}
+
+fn note_tc_shown(o: &mut Observer, i: usize, tc: &TC) {
+    if tc_valid(o, tc) && o.ext.evidence[i] < tc.round {
+        o.ext.evidence[i] = tc.round;
+    }
+}
+
+/// C19 (validity half): every certificate an honest node emits must pass the independent check.
+fn check_emitted_qc(o: &mut Observer, i: usize, qc: &QC, wherein: &str) {
+    if ident::is_genesis_qc(qc) {
+        return;
+    }
+    o.probe("C19.qc-emitted");
+    if !qc_valid(o, qc) {
+        let why = ident::check_qc(qc, &o.members).err().unwrap_or_default();
+        o.violate("C19", "invalid-qc-emitted", Some(i), format!("node {} emitted ({}) a QC for round {} that the independent checker rejects: {}", i, wherein, qc.round, why));
+    }
+    // The node's own signature inside a QC is a vote it cast (C03 sees own-leader votes here).
+    let me = o.members.names[i];
+    if qc.votes.iter().any(|(k, _)| *k == me) && qc_valid(o, qc) {
+        note_vote_cast(o, i, qc.round, &qc.hash, "own signature in an emitted QC");
+    }
+}
+
+fn check_emitted_tc(o: &mut Observer, i: usize, tc: &TC, wherein: &str) {
+    o.probe("C19.tc-emitted");
+    if !tc_valid(o, tc) {
+        let why = ident::check_tc(tc, &o.members).err().unwrap_or_default();
+        o.violate("C19", "invalid-tc-emitted", Some(i), format!("node {} emitted ({}) a TC for round {} that the independent checker rejects: {}", i, wherein, tc.round, why));
+    }
+}
+
+/// C03: at most one voted block per round.
+fn note_vote_cast(o: &mut Observer, i: usize, round: Round, hash: &Digest, how: &str) {
+    match o.ext.voted[i].get(&round) {
+        Some(h) if h != hash => {
+            let h = h.clone();
+            o.violate(
+                "C03",
+                "two-votes-one-round",
+                Some(i),
+                format!("node {} signed votes for two blocks in round {}: {} and {} ({})", i, round, ident::short(&h), ident::short(hash), how),
+            );
+        }
+        Some(_) => {}
+        None => {
+            o.ext.voted[i].insert(round, hash.clone());
+        }
+    }
+}
+
+fn msg_round(m: &ConsensusMessage) -> Round {
+    match m {
+        ConsensusMessage::Propose(b) => b.round,
+        ConsensusMessage::Vote(v) => v.round,
+        ConsensusMessage::Timeout(t) => t.round,
+        ConsensusMessage::TC(t) => t.round,
+        ConsensusMessage::SyncRequest(..) => 0,
+    }
+}
+
+fn msg_kind(m: &ConsensusMessage) -> u64 {
+    match m {
+        ConsensusMessage::Propose(_) => 1,
+        ConsensusMessage::Vote(_) => 2,
+        ConsensusMessage::Timeout(_) => 3,
+        ConsensusMessage::TC(_) => 4,
+        ConsensusMessage::SyncRequest(..) => 5,
+    }
+}
+
+/// C10 (evidence half): a node acting in round r > 1 must have been shown a certificate of
+/// round >= r - 1, or votes / timeouts of a quorum (its own counted) from which to assemble one.
+fn check_round_evidence(o: &mut Observer, i: usize, r: Round, what: &str) {
+    if r <= 1 {
+        return;
+    }
+    o.probe("C10.evidence-checked");
+    if o.ext.evidence[i] + 1 < r {
+        let ev = o.ext.evidence[i];
+        o.violate(
+            "C10",
+            "round-without-certificate",
+            Some(i),
+            format!("node {} emitted a {} for round {} but the highest QC/TC (or quorum of votes/timeouts) it had been shown is for round {}", i, what, r, ev),
+        );
+    }
+}
+
+pub fn on_frame(o: &mut Observer, ev: &TapEvent, phase: Phase, fidx: u32, data: &[u8], dec: &Decoded) {
+    match (ev.svc, ev.to_listener) {
+        (SVC_CONSENSUS, true) => {
+            if let Decoded::Cons(m) = dec {
+                match phase {
+                    Phase::Delivered => consensus_delivered(o, ev, m),
+                    Phase::Written => consensus_written(o, ev, m),
+                }
+            } else if phase == Phase::Written && o.is_honest_node(ev.src()) {
+                o.violate("C20", "undecodable-frame-emitted", Some(ev.src()), format!("node {} wrote a consensus frame that does not decode", ev.src()));
+            }
+        }
+        (SVC_MEMPOOL, true) => {
+            if let Decoded::Memp(m) = dec {
+                mempool_frame(o, ev, phase, fidx, data, m);
+            } else if phase == Phase::Written {
+                o.ext.conn_reqs.entry(ev.conn).or_default().push(None);
+            }
+        }
+        (SVC_MEMPOOL, false) => {
+            // A reply (ACK) written by the listener: pairs with the request of the same index.
+            if phase == Phase::Written {
+                let d = o.ext.conn_reqs.get(&ev.conn).and_then(|v| v.get(fidx as usize)).cloned().flatten();
+                if let Some(d) = d {
+                    o.ext.acks.entry((ev.dialer, d)).or_default().entry(ev.listener).or_insert(ev.seq);
+                    o.probe("C12.ack-seen");
+                }
+            }
+        }
+        (SVC_TX, true) => {
+            if phase == Phase::Delivered && ev.listener < o.n {
+                o.ext.tx_delivered[ev.listener].push(TxRec { seq: ev.seq, t_us: ev.t_us, conn: ev.conn, bytes: data.to_vec() });
+                o.probe("tx.delivered");
+            }
+        }
+        _ => {}
+    }
+}
+
+fn consensus_delivered(o: &mut Observer, ev: &TapEvent, m: &ConsensusMessage) {
+    let i = ev.dst();
+    if i >= o.n {
+        return;
+    }
+    o.fold_sig(&[msg_kind(m), i as u64, msg_round(m)]);
+    if !o.is_honest_node(i) {
+        return;
+    }
+    match m {
+        ConsensusMessage::Propose(b) => {
+            note_qc_shown(o, i, &b.qc);
+            if let Some(tc) = &b.tc {
+                note_tc_shown(o, i, tc);
+            }
+        }
+        ConsensusMessage::Vote(v) => {
+            // Tally valid votes addressed to i (it may assemble a QC from them).
+            if let Some(a) = o.idx(&v.author) {
+                if ident::verify_sig(&ident::vote_digest(&v.hash, v.round), &v.author, &v.signature) {
+                    let stake = o.members.stakes[a] as u64;
+                    let own = o.members.stakes[i] as u64;
+                    let q = o.members.quorum();
+                    let t = o.ext.vote_tally[i].entry((v.round, v.hash.clone())).or_default();
+                    if t.authors.insert(a) {
+                        t.stake += stake;
+                    }
+                    let has_own = t.authors.contains(&i);
+                    if t.stake + if has_own { 0 } else { own } >= q {
+                        o.ext.qc_shown[i].insert(v.hash.clone());
+                        if o.ext.evidence[i] < v.round {
+                            o.ext.evidence[i] = v.round;
+                        }
+                    }
+                }
+            }
+        }
+        ConsensusMessage::Timeout(t) => {
+            note_qc_shown(o, i, &t.high_qc);
+            if let Some(a) = o.idx(&t.author) {
+                if ident::verify_sig(&ident::timeout_digest(t.round, t.high_qc.round), &t.author, &t.signature) {
+                    let stake = o.members.stakes[a] as u64;
+                    let own = o.members.stakes[i] as u64;
+                    let q = o.members.quorum();
+                    let e = o.ext.timeout_tally[i].entry(t.round).or_default();
+                    if e.authors.insert(a) {
+                        e.stake += stake;
+                    }
+                    let has_own = e.authors.contains(&i);
+                    if e.stake + if has_own { 0 } else { own } >= q && o.ext.evidence[i] < t.round {
+                        o.ext.evidence[i] = t.round;
+                    }
+                }
+            }
+        }
+        ConsensusMessage::TC(tc) => note_tc_shown(o, i, tc),
+        ConsensusMessage::SyncRequest(..) => {}
+    }
+}
+
+fn consensus_written(o: &mut Observer, ev: &TapEvent, m: &ConsensusMessage) {
+    let i = ev.src();
+    if !o.is_honest_node(i) {
+        return;
+    }
+    let dst = ev.dst();
+    let me = o.members.names[i];
+    match m {
+        ConsensusMessage::Propose(b) => {
+            let d = ident::block_digest(b);
+            if b.author == me {
+                // Own proposal (reliable broadcast; retransmissions repeat earlier frames).
+                o.ext.authored[i].insert(d.clone());
+                o.ext.children.entry(b.qc.hash.clone()).or_default();
+                let first = !o.ext.proposal_first_emission[i].contains_key(&(dst, d.clone()));
+                if first {
+                    o.ext.proposal_first_emission[i].insert((dst, d.clone()), ev.seq);
+                }
+                // C09: no equivocation.
+                match o.ext.proposed[i].get(&b.round) {
+                    Some(prev) if *prev != d => {
+                        let prev = prev.clone();
+                        o.violate("C09", "equivocation", Some(i), format!("node {} proposed two different blocks for round {}: {} and {}", i, b.round, ident::short(&prev), ident::short(&d)));
+                    }
+                    Some(_) => {}
+                    None => {
+                        o.ext.proposed[i].insert(b.round, d.clone());
+                        o.probe("C09.proposal");
+                        // C10 (monotonic half): a block's first appearance anywhere on the wire
+                        // follows its creation order (the proposer waits for a quorum of ACKs
+                        // before making the next block; helper re-sends are never first).
+                        let prev = o.ext.link_prop_max_round.get(&(i, usize::MAX)).cloned().unwrap_or(0);
+                        if b.round <= prev {
+                            o.violate("C10", "proposal-round-regressed", Some(i), format!("node {} first emitted a proposal of round {} after one of round {}", i, b.round, prev));
+                        }
+                        o.ext.link_prop_max_round.insert((i, usize::MAX), prev.max(b.round));
+                        // C09: proposals only as the leader of the round.
+                        if o.members.leader(b.round) != me {
+                            o.violate("C09", "proposal-by-non-leader", Some(i), format!("node {} proposed a block for round {} which it does not lead", i, b.round));
+                        }
+                        // C19: certificates inside own proposals.
+                        check_emitted_qc(o, i, &b.qc, "in its proposal");
+                        note_qc_shown(o, i, &b.qc);
+                        if let Some(tc) = &b.tc {
+                            check_emitted_tc(o, i, tc, "in its proposal");
+                        }
+                        // C10: evidence for proposing in this round.
+                        check_round_evidence(o, i, b.round, "proposal");
+                        // C12 / C11: every own-batch digest it proposes was acknowledged by a quorum
+                        // and is stored content-addressed.
+                        for x in &b.payload {
+                            check_proposed_digest(o, i, x, ev.seq);
+                        }
+                        if !ident::verify_sig(&d, &me, &b.signature) {
+                            o.violate("C20", "own-proposal-bad-signature", Some(i), format!("node {} emitted a proposal for round {} whose signature does not verify", i, b.round));
+                        }
+                    }
+                }
+            } else {
+                // A block of another author leaving node i: a sync reply by its helper.
+                o.probe("C07.sync-reply");
+                let cid = ident::content_id(b);
+                let author_honest = o.idx(&b.author).map_or(false, |a| o.is_honest_node(a));
+                let orig = o.blocks.get(&d).map(|r| ident::content_id(&r.block));
+                if author_honest && orig.map_or(false, |x| x != cid) {
+                    o.violate("C07", "sync-reply-differs", Some(i), format!("node {} served block {} of round {} with content different from the block its (honest) author proposed", i, ident::short(&d), b.round));
+                }
+                crate::monitors_sync::on_sync_reply(o, i, dst, &d, ev.seq);
+            }
+        }
+        ConsensusMessage::Vote(v) => {
+            o.probe("C03.vote-on-wire");
+            if v.author != me {
+                o.violate("C03", "vote-with-foreign-author", Some(i), format!("node {} sent a vote naming another author", i));
+                return;
+            }
+            if !ident::verify_sig(&ident::vote_digest(&v.hash, v.round), &me, &v.signature) {
+                o.violate("C20", "own-vote-bad-signature", Some(i), format!("node {} emitted a vote for round {} whose signature does not verify", i, v.round));
+            }
+            note_vote_cast(o, i, v.round, &v.hash, "vote on the wire");
+            let (qc_round, ok_shape, author, sig_ok, known, payload) = match o.blocks.get(&v.hash) {
+                Some(rec) => {
+                    let b = &rec.block;
+                    let direct = b.qc.round + 1 == b.round;
+                    let via_tc = b.tc.as_ref().map_or(false, |tc| tc.round + 1 == b.round && b.qc.round >= tc_max_high(tc));
+                    (
+                        b.qc.round,
+                        (direct || via_tc) && b.qc.round < b.round && b.round == v.round,
+                        b.author,
+                        ident::verify_sig(&rec.digest, &b.author, &b.signature),
+                        true,
+                        b.payload.clone(),
+                    )
+                }
+                None => (0, false, PublicKey::default(), false, false, Vec::new()),
+            };
+            if !known {
+                // The block has not crossed the wire yet (a leader's own vote can overtake its
+                // proposal when the reliable connections are still being established): the
+                // content checks are made when the block shows up.
+                o.probe("C03.vote-before-block-seen");
+                o.ext.pending_votes.entry(v.hash.clone()).or_default().push((i, dst, v.round, ev.seq));
+            } else {
+                if !ok_shape {
+                    o.violate(
+                        "C03",
+                        "unsafe-extension",
+                        Some(i),
+                        format!("node {} voted for block {} of round {} whose QC is of round {} and whose TC does not justify the gap", i, ident::short(&v.hash), v.round, qc_round),
+                    );
+                }
+                // C09: only the leader's correctly signed block.
+                if o.members.leader(v.round) != author || !sig_ok {
+                    o.violate("C09", "vote-for-non-leader-block", Some(i), format!("node {} voted in round {} for a block not authored and signed by that round's leader", i, v.round));
+                }
+                o.ext.voted_author.entry(v.round).or_insert(author);
+                // C08: data availability at the instant the vote leaves.
+                if author != me {
+                    for x in &payload {
+                        o.probe("C08.payload-digest-checked");
+                        if !o.nodes[i].store.contains_key(&x.0.to_vec()) {
+                            o.violate("C08", "vote-without-batch", Some(i), format!("node {} voted for block {} (round {}) while batch {} is not in its store", i, ident::short(&v.hash), v.round, ident::short(x)));
+                        }
+                    }
+                    if payload.is_empty() {
+                        o.probe("C08.vote-empty-payload");
+                    } else {
+                        o.probe("C08.vote-nonempty-payload");
+                    }
+                }
+            }
+            check_round_evidence(o, i, v.round, "vote");
+            let lk = o.ext.link_core.entry((i, dst)).or_default();
+            let mut msgs: Vec<(&str, &str, String)> = Vec::new();
+            if lk.any_vote && v.round <= lk.max_vote_round {
+                msgs.push(("C03", "vote-round-not-increasing", format!("node {} sent to {} a vote for round {} after a vote for round {}", i, dst, v.round, lk.max_vote_round)));
+            }
+            if lk.any_timeout && v.round <= lk.max_timeout_round {
+                msgs.push(("C03", "vote-after-timeout", format!("node {} sent to {} a vote for round {} after its timeout for round {}", i, dst, v.round, lk.max_timeout_round)));
+            }
+            if v.round < lk.max_acting_round {
+                msgs.push(("C10", "acting-round-regressed", format!("node {} sent to {} a vote for round {} after acting in round {}", i, dst, v.round, lk.max_acting_round)));
+            }
+            lk.any_vote = true;
+            lk.max_vote_round = lk.max_vote_round.max(v.round);
+            lk.max_acting_round = lk.max_acting_round.max(v.round);
+            lk.max_voted_qc_round = lk.max_voted_qc_round.max(qc_round);
+            for (p, r, d) in msgs {
+                o.violate(p, r, Some(i), d);
+            }
+        }
+        ConsensusMessage::Timeout(t) => {
+            o.probe("C10.timeout-on-wire");
+            if t.author != me {
+                o.violate("C10", "timeout-with-foreign-author", Some(i), format!("node {} sent a timeout naming another author", i));
+                return;
+            }
+            if !ident::verify_sig(&ident::timeout_digest(t.round, t.high_qc.round), &me, &t.signature) {
+                o.violate("C20", "own-timeout-bad-signature", Some(i), format!("node {} emitted a timeout for round {} whose signature does not verify", i, t.round));
+            }
+            check_emitted_qc(o, i, &t.high_qc, "in its timeout");
+            check_round_evidence(o, i, t.round, "timeout");
+            let lk = o.ext.link_core.entry((i, dst)).or_default();
+            let mut msgs: Vec<(&str, &str, String)> = Vec::new();
+            if t.round < lk.max_acting_round {
+                msgs.push(("C10", "acting-round-regressed", format!("node {} sent to {} a timeout for round {} after acting in round {}", i, dst, t.round, lk.max_acting_round)));
+            }
+            if t.high_qc.round < lk.max_voted_qc_round {
+                msgs.push((
+                    "C10",
+                    "timeout-high-qc-below-voted",
+                    format!("node {} sent to {} a timeout for round {} carrying a QC of round {} after voting for a block whose QC is of round {}", i, dst, t.round, t.high_qc.round, lk.max_voted_qc_round),
+                ));
+            }
+            if t.high_qc.round < lk.max_timeout_high_qc {
+                msgs.push((
+                    "C10",
+                    "timeout-high-qc-regressed",
+                    format!("node {} sent to {} a timeout carrying a QC of round {} after one carrying a QC of round {}", i, dst, t.high_qc.round, lk.max_timeout_high_qc),
+                ));
+            }
+            if t.high_qc.round >= t.round {
+                msgs.push(("C10", "timeout-high-qc-not-below-round", format!("node {} sent a timeout for round {} carrying a QC of round {}", i, t.round, t.high_qc.round)));
+            }
+            lk.any_timeout = true;
+            lk.max_timeout_round = lk.max_timeout_round.max(t.round);
+            lk.max_acting_round = lk.max_acting_round.max(t.round);
+            lk.max_timeout_high_qc = lk.max_timeout_high_qc.max(t.high_qc.round);
+            for (p, r, d) in msgs {
+                o.violate(p, r, Some(i), d);
+            }
+        }
+        ConsensusMessage::TC(tc) => {
+            o.probe("C19.tc-broadcast");
+            check_emitted_tc(o, i, tc, "as a broadcast");
+            if !o.ext.tc_sent.insert((i, dst, tc.round)) {
+                o.violate("C19", "tc-sent-twice", Some(i), format!("node {} sent the TC of round {} to {} more than once", i, tc.round, dst));
+            }
+            let lk = o.ext.link_core.entry((i, dst)).or_default();
+            if tc.round < lk.max_acting_round {
+                let prev = lk.max_acting_round;
+                o.violate("C10", "acting-round-regressed", Some(i), format!("node {} sent to {} the TC of round {} after acting in round {}", i, dst, tc.round, prev));
+            }
+        }
+        ConsensusMessage::SyncRequest(d, origin) => {
+            o.probe("C07.sync-request");
+            if *origin != me {
+                o.violate("C07", "sync-request-foreign-origin", Some(i), format!("node {} sent a sync request naming another origin", i));
+            }
+            o.ext.sync_requests[i].push((ev.seq, ev.t_us, d.clone(), dst));
+        }
+    }
+}
+
+/// C12 / C11 at the instant an own proposal carrying digest `x` leaves node `i`.
+fn check_proposed_digest(o: &mut Observer, i: usize, x: &Digest, seq: u64) {
+    o.probe("C11.proposed-digest");
+    match o.nodes[i].store.get(&x.0.to_vec()) {
+        None => {
+            o.violate("C11", "proposed-digest-not-stored", Some(i), format!("node {} proposed digest {} which is not a key of its store", i, ident::short(x)));
+        }
+        Some((_, vh, _)) => {
+            if vh != x {
+                o.violate("C11", "proposed-digest-not-content-address", Some(i), format!("node {} proposed digest {} whose stored value hashes to {}", i, ident::short(x), ident::short(vh)));
+            }
+        }
+    }
+    if o.ext.batch_first_src.get(x).map(|(s, _)| *s) == Some(i) {
+        check_ack_quorum(o, i, x, seq, "proposed");
+    }
+}
+
+fn check_ack_quorum(o: &mut Observer, i: usize, d: &Digest, seq: u64, when: &str) {
+    let mut stake = o.members.stakes[i] as u64;
+    let mut who = Vec::new();
+    if let Some(m) = o.ext.acks.get(&(i, d.clone())) {
+        for (j, s) in m {
+            if *s < seq && *j < o.n {
+                stake += o.members.stakes[*j] as u64;
+                who.push(*j);
+            }
+        }
+    }
+    o.probe("C12.quorum-checked");
+    if stake < o.members.quorum() {
+        who.sort();
+        // Two different histories: the node's own dissemination path released the batch, or a
+        // copy of its own batch came back from a peer and went through the path for foreign
+        // batches (which does not wait for acknowledgements).
+        let reentered = o.ext.batch_delivered_to.contains(&(i, d.clone()));
+        let rule = if reentered { "own-batch-reentered-via-peer-below-quorum" } else { "own-batch-released-below-quorum" };
+        o.violate(
+            "C12",
+            rule,
+            Some(i),
+            format!(
+                "node {} {} its own batch {} when acknowledgements had been sent only by {:?} (stake {} with its own, quorum {}){}",
+                i,
+                when,
+                ident::short(d),
+                who,
+                stake,
+                o.members.quorum(),
+                if reentered { "; a copy of the batch had been delivered back to it by a peer" } else { "" }
+            ),
+        );
+    }
+}
+
+fn mempool_frame(o: &mut Observer, ev: &TapEvent, phase: Phase, _fidx: u32, data: &[u8], m: &MempoolMessage) {
+    let src = ev.src();
+    match m {
+        MempoolMessage::Batch(txs) => {
+            let d = ident::bytes_digest(data);
+            if phase == Phase::Written {
+                o.ext.conn_reqs.entry(ev.conn).or_default().push(Some(d.clone()));
+                if !o.ext.batch_first_src.contains_key(&d) {
+                    o.ext.batch_first_src.insert(d.clone(), (src, ev.seq));
+                    o.ext.batch_txs.insert(d.clone(), txs.clone());
+                    if o.is_honest_node(src) {
+                        o.probe("C11.own-batch");
+                        o.ext.own_batches[src].push(BatchRec { first_seq: ev.seq, first_t: ev.t_us, digest: d.clone(), txs: txs.clone(), bytes_len: data.len() });
+                        crate::monitors_batch::on_own_batch(o, src);
+                    }
+                } else if o.ext.batch_first_src.get(&d).map(|(s, _)| *s) != Some(src) {
+                    o.probe("C13.batch-served-by-helper");
+                }
+            } else {
+                o.fold_sig(&[11, ev.dst() as u64, txs.len() as u64]);
+                o.ext.batch_delivered_to.insert((ev.dst(), d.clone()));
+            }
+        }
+        MempoolMessage::BatchRequest(ds, origin) => {
+            if phase == Phase::Written {
+                o.ext.conn_reqs.entry(ev.conn).or_default().push(None);
+                if o.is_honest_node(src) {
+                    o.probe("C13.batch-request");
+                    if *origin != o.members.names[src] {
+                        o.violate("C13", "batch-request-foreign-origin", Some(src), format!("node {} sent a batch request naming another origin", src));
+                    }
+                    for d in ds {
+                        o.ext.batch_requests[src].push((ev.seq, d.clone()));
+                    }
+                }
+            } else {
+                o.fold_sig(&[12, ev.dst() as u64, ds.len() as u64]);
+            }
+        }
+    }
+}
+
+/// Votes that overtook their block on the wire are judged when the block becomes known.
+pub fn on_block_learned(o: &mut Observer, d: &Digest) {
+    let pend = match o.ext.pending_votes.remove(d) {
+        Some(p) => p,
+        None => return,
+    };
+    let (qc_round, round, ok_shape, author, sig_ok) = {
+        let rec = &o.blocks[d];
+        let b = &rec.block;
+        let direct = b.qc.round + 1 == b.round;
+        let via_tc = b.tc.as_ref().map_or(false, |tc| tc.round + 1 == b.round && b.qc.round >= tc_max_high(tc));
+        (b.qc.round, b.round, (direct || via_tc) && b.qc.round < b.round, b.author, ident::verify_sig(&rec.digest, &b.author, &b.signature))
+    };
+    for (i, _dst, vround, _seq) in pend {
+        if !ok_shape || vround != round {
+            o.violate("C03", "unsafe-extension", Some(i), format!("node {} voted for block {} of round {} whose QC is of round {} and whose TC does not justify the gap", i, ident::short(d), vround, qc_round));
+        }
+        if o.members.leader(vround) != author || !sig_ok {
+            o.violate("C09", "vote-for-non-leader-block", Some(i), format!("node {} voted in round {} for a block not authored and signed by that round's leader", i, vround));
+        }
+        o.ext.voted_author.entry(vround).or_insert(author);
+    }
+}
+
+pub fn on_conn_event(o: &mut Observer, ev: &TapEvent, kind: &TapKind) {
+    if let TapKind::Reset { .. } = kind {
+        o.probe("conn.reset");
+    }
+    let _ = ev;
+}
+
+pub fn on_commit(o: &mut Observer, node: usize, b: &Block, d: &Digest, _seq: u64) {
+    if !o.is_honest_node(node) {
+        return;
+    }
+    // ---- C05: commit only on a certified consecutive-round 2-chain (or as an ancestor) -------
+    o.ext.children.entry(b.qc.hash.clone()).or_default();
+    let justified = {
+        // Children of B with round B.round + 1 whose digest is certified by a QC shown to node.
+        let kids: Vec<Digest> = o.ext.children.get(d).map(|v| v.iter().filter(|k| o.blocks.get(*k).map_or(false, |r| r.round == b.round + 1)).cloned().collect()).unwrap_or_default();
+        kids.iter().any(|k| o.ext.qc_shown[node].contains(k))
+    };
+    if justified {
+        o.probe("C05.direct-commit");
+        // Every pending commit that is an ancestor of this one is justified by it.
+        let pending = std::mem::take(&mut o.ext.unjustified[node]);
+        let mut anc: HashSet<Digest> = HashSet::new();
+        let mut cur = b.qc.hash.clone();
+        let mut steps = 0;
+        while cur != Digest::default() && steps < 10_000 {
+            anc.insert(cur.clone());
+            cur = match o.blocks.get(&cur) {
+                Some(r) => r.parent.clone(),
+                None => break,
+            };
+            steps += 1;
+        }
+        for (pd, pr) in pending {
+            if anc.contains(&pd) {
+                o.probe("C05.ancestor-commit");
+            } else {
+                o.ext.unjustified[node].push((pd, pr));
+            }
+        }
+    } else {
+        o.ext.unjustified[node].push((d.clone(), b.round));
+    }
+    // ---- C08: data availability at commit ----------------------------------------------------
+    for x in &b.payload {
+        o.probe("C08.commit-digest-checked");
+        if !o.nodes[node].store.contains_key(&x.0.to_vec()) {
+            o.violate("C08", "commit-without-batch", Some(node), format!("node {} delivered block {} (round {}) while batch {} is not in its store", node, ident::short(d), b.round, ident::short(x)));
+        }
+    }
+    if !b.payload.is_empty() {
+        o.probe("C08.commit-nonempty-payload");
+    }
+    crate::monitors_batch::on_commit(o, node, b);
+}
+
+pub fn on_store_write(o: &mut Observer, node: usize, key: &[u8], value: &[u8], vh: &Digest, seq: u64) {
+    if !o.is_honest_node(node) {
+        return;
+    }
+    // ---- C11: content addressing of everything the mempool stores ---------------------------
+    if key == vh.0 {
+        o.probe("C11.batch-stored");
+        if let Ok(MempoolMessage::Batch(txs)) = bincode::deserialize::<MempoolMessage>(value) {
+            crate::monitors_batch::on_batch_stored(o, node, vh, &txs);
+        }
+        // Own batch? Then a quorum must have acknowledged it by now (C12).
+        if o.ext.batch_first_src.get(vh).map(|(s, _)| *s) == Some(node) {
+            o.probe("C12.own-batch-stored");
+            check_ack_quorum(o, node, vh, seq, "stored (made deliverable)");
+        }
+    } else {
+        // Not content-addressed: it must be a consensus block stored under its digest.
+        match bincode::deserialize::<Block>(value) {
+            Ok(b) if ident::block_digest(&b).0 == key => {
+                o.probe("store.block-written");
+            }
+            _ => {
+                let is_batch = bincode::deserialize::<MempoolMessage>(value).map_or(false, |m| matches!(m, MempoolMessage::Batch(_)));
+                let kd = {
+                    let mut k = [0u8; 32];
+                    let n = key.len().min(32);
+                    k[..n].copy_from_slice(&key[..n]);
+                    Digest(k)
+                };
+                if is_batch {
+                    o.violate("C11", "batch-stored-under-wrong-key", Some(node), format!("node {} stored a batch under key {} but its bytes hash to {}", node, ident::short(&kd), ident::short(vh)));
+                } else {
+                    o.violate("C20", "block-stored-under-wrong-key", Some(node), format!("node {} stored a value under key {} that is neither its hash nor a block with that digest", node, ident::short(&kd)));
+                }
+            }
+        }
+    }
+}
+
+pub fn on_end(o: &mut Observer, end_us: u64) {
+    // C05: commits that no certified consecutive 2-chain justifies.
+    for i in 0..o.n {
+        if !o.is_honest_node(i) {
+            continue;
+        }
+        let pending = std::mem::take(&mut o.ext.unjustified[i]);
+        for (d, r) in pending {
+            o.violate("C05", "commit-without-2-chain", Some(i), format!("node {} committed block {} of round {} without having been shown a QC for a child of round {} (and it is no ancestor of a block committed that way)", i, ident::short(&d), r, r + 1));
+        }
+    }
+    // C09: rotation over windows of n consecutive voted rounds.
+    let n = o.n as u64;
+    let rounds: Vec<(Round, PublicKey)> = o.ext.voted_author.iter().map(|(r, a)| (*r, *a)).collect();
+    for w in rounds.windows(o.n) {
+        if w[o.n - 1].0 - w[0].0 == n - 1 {
+            let distinct: HashSet<PublicKey> = w.iter().map(|(_, a)| *a).collect();
+            o.probe("C09.rotation-window");
+            if distinct.len() != o.n {
+                o.violate("C09", "rotation", None, format!("rounds {}..{} were led by only {} distinct authorities", w[0].0, w[o.n - 1].0, distinct.len()));
+            }
+        }
+    }
+    crate::monitors_batch::on_end(o, end_us);
+    crate::monitors_sync::on_end(o, end_us);
+}
